@@ -24,6 +24,36 @@ def impl_verdict(version, mtype, action, payload):
     return ("accept", msg.payload)
 
 
+_IND = {}
+
+
+def independent_verdict(version, mtype, action, payload):
+    """An evaluation of the schema file that shares nothing with the library's validator cache, mode
+    selection or error mapping: a fresh Draft4Validator over the file, numbers as exact Decimals.
+    True (valid) / False (invalid) / None (no such schema)."""
+    import decimal
+    import os
+    from jsonschema import Draft4Validator
+    pkg = "v16" if version == "1.6" else "v201"
+    name = action + "Response" if mtype == "CallResult" else (action if version == "1.6" else action + "Request")
+    key = (pkg, name)
+    if key not in _IND:
+        path = os.path.join(C.REPO, "ocpp", pkg, "schemas", name + ".json")
+        if not os.path.exists(path):
+            _IND[key] = None
+        else:
+            with open(path, encoding="utf-8-sig") as fh:
+                _IND[key] = Draft4Validator(json.loads(fh.read(), parse_float=decimal.Decimal))
+    val = _IND[key]
+    if val is None:
+        return None
+    try:
+        inst = json.loads(json.dumps(payload), parse_float=decimal.Decimal)
+        return val.is_valid(inst)
+    except Exception:  # noqa: BLE001 - out of range for the oracle: no opinion
+        return None
+
+
 def coq_case(version, mtype, action, payload, verdict):
     exp = {"accept": "EAccept", "crash": "ECrash"}.get(verdict[0]) or "(EReject %s)" % C.cs(verdict[1])
     return "mkV %s %s %s %s %s" % ("V16" if version == "1.6" else "V201",
@@ -47,12 +77,21 @@ def generate(tier, seed, only=None):
     for (version, pkg, mtype, action, name) in G.message_index():
         if only and not only(version, mtype, action):
             continue
-        for (kind, inst, tags) in G.instances_for(name, schemas[pkg][name], rng, tier):
+        insts = G.instances_for(name, schemas[pkg][name], rng, tier)
+        for (kind, inst, tags) in insts:
             rows.append((version, mtype, action, kind, inst, tags))
+        # the same payload under the OTHER version's schema of the same action and direction (if any):
+        # verdicts must not be carried over between versions
+        other = "2.0.1" if version == "1.6" else "1.6"
+        opkg = "v201" if pkg == "v16" else "v16"
+        oname = (action + "Response") if mtype == "CallResult" else (action if other == "1.6" else action + "Request")
+        if oname in schemas[opkg]:
+            for (kind, inst, tags) in insts[:3]:
+                rows.append((other, mtype, action, "cross", inst, None))
     return rows
 
 
-def run_correspondence(rep, rows, tag, prop_id, shard_size=250):
+def run_correspondence(rep, rows, tag, prop_id, shard_size=250, check_codes=False):
     """Evaluate rows on the implementation and in Coq; report disagreements. Returns list of
     (row, verdict) for further use."""
     results = []
@@ -72,6 +111,15 @@ def run_correspondence(rep, rows, tag, prop_id, shard_size=250):
                           "validation of %s %s %s raised %s" % (version, mtype, action, v[1]),
                           {"kind": "verdict", "version": version, "mtype": mtype, "action": action,
                            "payload": inst, "built_to_violate": tags, "implementation": v})
+        elif tags is None:
+            ind = independent_verdict(version, mtype, action, inst)
+            if ind is not None and ind != (v[0] == "accept") and "null" not in json.dumps(inst) and v[1:2] != ("NotImplemented",):
+                rep.violation("%s:verdict-independent:%s:%s:%s:%s" % (prop_id, version, mtype, action,
+                                                                      C.hashlib.sha1(json.dumps(inst, sort_keys=True).encode()).hexdigest()[:8]),
+                              "%s %s %s: the library %ss a payload that an independent Draft-04 evaluation finds %s" % (
+                                  version, mtype, action, v[0], "valid" if ind else "invalid"),
+                              {"kind": "verdict", "version": version, "mtype": mtype, "action": action,
+                               "payload": inst, "built_to_violate": None, "implementation": v[:2], "independent": ind})
         elif expect_reject != (v[0] == "reject"):
             rep.violation("%s:verdict:%s:%s:%s:%s" % (prop_id, version, mtype, action, json.dumps(tags)),
                           "%s %s %s: payload built %s was %sed" % (
@@ -79,6 +127,15 @@ def run_correspondence(rep, rows, tag, prop_id, shard_size=250):
                               "to violate %s" % tags if tags else "schema-valid", v[0]),
                           {"kind": "verdict", "version": version, "mtype": mtype, "action": action,
                            "payload": inst, "built_to_violate": tags, "implementation": v})
+        elif check_codes and tags and v[0] == "reject":
+            from harness.oracles import code_for
+            allowed = sorted({code_for(kw) for (_, kw) in tags})
+            if v[1] not in allowed:
+                rep.violation("%s:code:%s:%s:%s:%s" % (prop_id, version, mtype, action, json.dumps(tags)),
+                              "%s %s %s: violation of %s was reported as %s, expected one of %s" % (
+                                  version, mtype, action, tags, v[1], allowed),
+                              {"kind": "verdict", "version": version, "mtype": mtype, "action": action,
+                               "payload": inst, "built_to_violate": tags, "implementation": v})
     shards = [shard_source(cases[i:i + shard_size]) for i in range(0, len(cases), shard_size)]
     outs = C.coq_eval_shards(tag, shards)
     for si, (idx, out) in enumerate(outs):
@@ -94,7 +151,7 @@ def run_correspondence(rep, rows, tag, prop_id, shard_size=250):
             rc, desc = C.coq_query(tag + "-desc", HEADER + "Eval vm_compute in describe (%s).\n" % cases[si * shard_size + i])
             # is this a failing input for the property? the construction oracle above decides;
             # otherwise the correspondence is broken without one.
-            already = any(json.dumps(tags) in vkey and action in vkey for (vkey, _, _) in rep.violations)
+            already = tags is not None and any(json.dumps(tags) in vkey and action in vkey for (vkey, _, _) in rep.violations)
             if not already:
                 rep.violation("%s:corr:verdict:%s:%s:%s:%s" % (prop_id, version, mtype, action, json.dumps(tags)),
                               "model and implementation disagree on %s %s %s (%s): implementation %r" % (
